@@ -40,6 +40,9 @@ C['C05'] = ("model_checking",
 C['C14'] = ("model_checking",
  "Signing.tla models save_manifests' sign decision for the top-level Manifest (also when it is renamed by (de)compression during the save), the sub-Manifests and a failing signer over the full option matrix; TLC checks signed-iff-wanted, sub-Manifests-never-signed and failure-reported (and exhibits the historical rename defect). Every combination of sign option x originally signed x key id x usable key x renamed top-level x sub-Manifest format x hostile names is run on the real loader with real gpg; the written files are classified line by line and judged by TraceSigning.tla with FramingRef (the C04 reference), re-verified in a separate verifier home, and the authenticated cleartext is compared with the in-memory entries.",
  "gpg 2.2.40 and its key handling are trusted; unusable key = public-key-only home or unknown key id (expired secret keys not generated).")
+C['C15'] = ("model_checking",
+ "FindTop.tla: the upward walk of find_top_level_manifest against the declarative FindTopRef!OutermostOf for ALL chains of 3 (quick) / 4 (thorough) levels x Manifest none/plain/compressed x IGNORE none/path/ancestor/sibling/look-alike x device boundary x starting level x allow_compressed x allow_xdev; the same chains (exhaustive to depth 2/3, sampled to depth 6) are built as real directory chains with hostile names and real Manifest files in every compression format and run through the real function; TraceFindTop.tla judges each result.",
+ "Device boundaries are simulated by rewriting st_dev in what gemato.find_top_level sees from os.stat/os.fstat.")
 man = {
  "version": 1,
  "setup_cmd": "cd /verif && ./tools/setup.sh",
